@@ -42,7 +42,7 @@ def showStatus (s : Stream) : String :=
   s!"cmss={c.mss} smss={v.mss} csack={b01 c.sackPermitted} ssack={b01 v.sackPermitted} " ++
   s!"created={s.createTime} seen={s.lastSeen} ctrk={b01 c.ackTracking} strk={b01 v.ackTracking} " ++
   s!"cak={c.ackTr.ack} sak={v.ackTr.ack} civn={c.ackTr.ivs.length} sivn={v.ackTr.ivs.length} " ++
-  s!"civ={showIvs c.ackTr.ivs} siv={showIvs v.ackTr.ivs}"
+  s!"civ={showIvs c.ackTr.ivs} siv={showIvs v.ackTr.ivs} rec={b01 (c.recEnd.isSome || v.recEnd.isSome)}"
 
 /-- `ooo`: the out-of-order callbacks are installed; `cbs`: the stream callbacks are installed at all (they are installed
     in the new-stream callback: without one only the follower's termination callback is observable) -/
@@ -57,7 +57,8 @@ def parseCfg (ws : List String) : Cfg × Bool :=
   ({ attach := kvNat ws "attach" 0 == 1, maxChunks := kvNat ws "maxc" 512, maxBytes := kvNat ws "maxb" 3145728,
      keepAlive := kvNat ws "ka" 300000000, acl := kvNat ws "acl" 1 == 1, maxSacked := kvNat ws "maxs" 1024,
      ackC := (kvNat ws "ack" 0) % 2 == 1, ackS := (kvNat ws "ack" 0) / 2 % 2 == 1, useSack := kvNat ws "usesack" 0 == 1,
-     ignC := (kvNat ws "ign" 0) % 2 == 1, ignS := (kvNat ws "ign" 0) / 2 % 2 == 1, cbSet := kvNat ws "nocb" 0 != 1 },
+     ignC := (kvNat ws "ign" 0) % 2 == 1, ignS := (kvNat ws "ign" 0) / 2 % 2 == 1, cbSet := kvNat ws "nocb" 0 != 1,
+     recovery := ((kvOf ws "rec").bind (·.toNat?)).map (· % 4294967296) },
    kvNat ws "ooo" 0 == 1)
 
 /-- the SACK option of a `pkt` line: `sk=<-|edge,..>` is `TCP::sack(edges)` (then read back through the option bytes),
